@@ -2,6 +2,7 @@
 //!   fvharness corr   <Cxx> <seed> <n>   transcript of inputs and implementation outputs for the Lean driver
 //!   fvharness search <Cxx> <seed> <n>   evaluates the property itself on the real code with an independent oracle
 mod util;
+mod corr_misc;
 mod trace;
 mod c04;
 mod c05;
@@ -26,6 +27,7 @@ fn main() {
         ("corr", "C01") => trace::corr("C01", seed, n),
         ("corr", "C11") => trace::corr("C11", seed, n),
         ("corr", "C12") => trace::corr("C12", seed, n),
+        ("corr", "C19") => corr_misc::corr_c19(seed, n),
         ("corr", "C04") => c04::corr(seed, n),
         ("search", "C04") => c04::search(seed, n),
         ("corr", "C05") => c05::corr(seed, n),
